@@ -716,7 +716,7 @@ class C14(Prop):
             if c["how"] == "neg" or (c["how"] == "rscalar" and c["operator"] not in ("add", "mul")):
                 return True
         if op == "like" and (c["fn"] != "reindex_like" or not (c.get("fill") is None or isinstance(c["fill"], float))):
-            # `DSV.reindexLikeDs` mirrors reindex_like with a float fill (NaN by default); interp_like has no mirror
+            # `DSV.reindexLikeDs` mirrors reindex_like with a float fill (NaN by default); interp_like is compared with its mirror in C18 (where labels and values are dyadic so that every float operation is exact)
             return True
         if op in ("stack_ds", "concatenate_ds") and c.get("align"):
             # `DSV.stackDs` / `DSV.concatenateDs` mirror align=False
